@@ -34,6 +34,7 @@ type c13Case struct {
 	Extras  []string  `json:"extras,omitempty"`   // non-sample files (other suffixes)
 	ExtraSizes []int  `json:"extra_sizes,omitempty"` // their sizes (smaller, equal to and larger than a sample; other supported sample sizes)
 	DirBin  string    `json:"dir_bin,omitempty"`  // a directory whose name ends in .bin / .dat
+	ReportIn string   `json:"report_in,omitempty"` // "" = outside the input tree; otherwise a path relative to the input directory (the report is written among the samples)
 	Stale   int       `json:"stale_report_bytes,omitempty"` // the -o path already holds an older (longer) report of this many bytes
 	Workers int       `json:"workers"`
 	Race    bool      `json:"race,omitempty"` // run the binary / shim built with the race detector
@@ -504,6 +505,10 @@ func checkC13(c c13Case) (Outcome, error) {
 		return Outcome{Skip: "INCONCLUSIVE scratch: " + err.Error()}, nil
 	}
 	rep := filepath.Join(dir, "out", "report.csv")
+	if c.ReportIn != "" {
+		rep = filepath.Join(in, c.ReportIn)
+		out.Classes = append(out.Classes, "report-inside-input-tree")
+	}
 	budget := 3 * time.Minute
 	if c.Scale == "1E6" {
 		budget = time.Duration(2+len(c.Files)) * 2 * time.Minute
@@ -634,6 +639,9 @@ func genC13(t *rapid.T) c13Case {
 	c.Procs = rapid.SampledFrom([]int{1, 2, 16}).Draw(t, "gomaxprocs")
 	if c.Scale != "1E8" && c.Scale != "1E8hdr" && rapid.IntRange(0, 2).Draw(t, "stale") == 0 {
 		c.Stale = rapid.SampledFrom([]int{1, 500, 20000, 400000}).Draw(t, "stale_bytes")
+	}
+	if c.Scale != "1E8" && c.Scale != "1E8hdr" && rapid.IntRange(0, 3).Draw(t, "report_in") == 0 {
+		c.ReportIn = filepath.Join(rapid.SampledFrom([]string{"", "a", "a/b"}).Draw(t, "rdir"), rapid.SampledFrom([]string{"0report.csv", "report.csv", "m.csv", "zz_report.csv", "RandomnessTestReport.csv"}).Draw(t, "rname"))
 	}
 	if v := envInt("VERIF_WORKERS", 0); v > 0 { // shards that pin "one worker, several files" (a worker handles consecutive files)
 		c.Workers = v
